@@ -183,8 +183,9 @@ def inject(scratch, prop, pid):
                     incl = a.startswith("+")          # `<<+marker>>`: the marker line itself is part of the extracted text
                     a = a[1:] if incl else a
                     ia = [i for i, l in enumerate(lines_) if a in l]
-                    ib = [i for i, l in enumerate(lines_) if b in l]
-                    if len(ia) != 1 or len(ib) != 1 or ib[0] <= ia[0]:
+                    # the end marker is the FIRST line containing it after the (unique) start marker
+                    ib = [i for i, l in enumerate(lines_) if b in l and ia and i > ia[0]][:1]
+                    if len(ia) != 1 or len(ib) != 1:
                         raise Undecided(f"lost anchor: extraction markers `{a}` / `{b}` matched {len(ia)} / {len(ib)} lines in {rel}")
                     text = "\n".join(lines_[ia[0] + (0 if incl else 1):ib[0]])
                     EXTRACTED.append(dict(file=rel, from_marker=a, to_marker=b, lines=ib[0] - ia[0] - 1, sha256=hashlib.sha256(text.encode()).hexdigest()))
